@@ -76,6 +76,8 @@ USER_SOURCES = {
     'literal-eval-syntaxerror': (['import ast'], "ast.literal_eval('[1, 2\\n 3]')", 'SyntaxError'),
     'compile-in-string-syntaxerror': (['import ast'], "ast.parse('def (:')", 'SyntaxError'),
     'closed-stdout-print': (['import sys'], "sys.stdout.close() or print('after close')", 'ValueError'),
+    'many-inputs-then-fail': (['def read_many(n):', '    for _ in range(n):', '        input()', '    return 0'], "read_many(45) or int('not a number')", 'ValueError'),
+    'runaway-input-loop': (['def read_forever():', '    while True:', "        input('more?')  " + MARK], 'read_forever()', None),
     'int-too-long': ([], "int('9' * 5000)", 'ValueError'),
     'chained-from': ([], "raise ValueError('outer') from KeyError('inner')", 'ValueError'),
     'chained-from-none': ([], "raise TypeError('no context') from None", 'TypeError'),
